@@ -60,6 +60,8 @@ def tree_lines(hist):
 
 PREFIXES = [
     ["reg s1 f1", "reg s1 f2", "reg s2 f2", "reg s2 f1"],
+    # the application also takes the address of the sandbox function (before and between invocations)
+    ["fnaddr s1", "reg s1 f1", "reg s1 f2", "reg s2 f1", "reg s2 f2", "fnaddr s2"],
     # slots shuffled by an unregister / re-register history; f3 occupies and frees entries
     ["reg s1 f2", "reg s1 f1", "unreg s1 f2", "reg s1 f3", "reg s1 f2", "unreg s1 f3", "reg s2 f3", "reg s2 f1",
      "unreg s2 f3", "reg s2 f2", "unreg s2 f1", "reg s2 f1"],
